@@ -264,14 +264,32 @@ class Stacker(Transformer):
         if has_only_one_sample_dim and sample_name in X.dims:
             X = X.rename({sample_name: self.dims_mapping[sample_name][0]})
 
-        ds: DataSet = X.to_unstacked_dataset(feature_name, "variable").unstack()
+        ds: DataSet = X.to_unstacked_dataset(feature_name, "variable")
+        ds = self._restore_squeezed_dims(ds, X).unstack()
         ds = self._reorder_dims(ds)
         return ds
 
     def _unstack_to_dataset_components(self, data: DataArray) -> DataSet:
         feature_name = self.feature_name
-        ds: DataSet = data.to_unstacked_dataset(feature_name, "variable").unstack()
+        ds: DataSet = data.to_unstacked_dataset(feature_name, "variable")
+        ds = self._restore_squeezed_dims(ds, data).unstack()
         ds = self._reorder_dims(ds)
+        return ds
+
+    def _restore_squeezed_dims(self, ds: DataSet, X: DataArray) -> DataSet:
+        """Put back the length-1 dimensions that `to_unstacked_dataset` squeezes
+        (a single sample, a single mode, a single bootstrap member)."""
+        for dim in X.dims:
+            if dim == self.feature_name or dim in ds.dims:
+                continue
+            index = X.indexes.get(dim)
+            if isinstance(index, pd.MultiIndex):
+                coords = xr.Coordinates.from_pandas_multiindex(index, dim)
+                ds = ds.expand_dims(dim).assign_coords(coords)
+            elif dim in X.coords:
+                ds = ds.expand_dims({dim: X[dim].values})
+            else:
+                ds = ds.expand_dims(dim)
         return ds
 
     def _type_name(self, X):
